@@ -2,7 +2,8 @@ from __future__ import annotations
 
 from distreqx import distributions
 from jax import numpy as jnp
-from jaxtyping import Array, ArrayLike, Bool, Float, Integer
+from jax import random as jr
+from jaxtyping import Array, ArrayLike, Bool, Float, Integer, Key
 
 from .base_distribution import AbstractDistreqxWrapper, AbstractMaskableDistribution
 
@@ -41,6 +42,24 @@ class Categorical(
     @property
     def probs(self) -> Float[Array, " dims"]:
         return self.distribution.probs
+
+    # distreqx casts samples and modes to int8, which wraps around for more than 128 classes; the index
+    # is therefore produced here, from the same draw, in the default integer type
+    def sample(self, key: Key[Array, ""]) -> Integer[Array, ""]:
+        probs = self.probs
+        is_valid = jnp.all(jnp.isfinite(probs), axis=-1) & jnp.all(probs >= 0, axis=-1)
+        draws = jr.categorical(key, self.logits, axis=-1)
+        return jnp.where(is_valid, draws, -1)
+
+    def mode(self) -> Integer[Array, ""]:
+        parameter = self.distribution.probs if self.distribution._logits is None else self.logits
+        return jnp.argmax(parameter, axis=-1)
+
+    def sample_and_log_prob(
+        self, key: Key[Array, ""]
+    ) -> tuple[Integer[Array, ""], Float[Array, ""]]:
+        sample = self.sample(key)
+        return sample, self.log_prob(sample)
 
     def mask(self, mask: Bool[Array, " dims"]) -> Categorical:
         masked_logits = jnp.where(mask, self.logits, -jnp.inf)
